@@ -1,6 +1,7 @@
 package verifharness
 
 import (
+	"net/http"
 	"encoding/json"
 	"errors"
 	"fmt"
@@ -84,6 +85,10 @@ func (r *brkRunner) begin(rid int) bool {
 			case "ok":
 				return nil
 			case "panic":
+				// what httputil.ReverseProxy raises when a response dies mid-body, and an ordinary panic
+				if rid%2 == 0 {
+					panic(http.ErrAbortHandler)
+				}
 				panic("boom")
 			default:
 				return errBackend
@@ -256,6 +261,9 @@ func TestBreaker(t *testing.T) {
 		idx := 0
 		emit := func(kind string, c BrkCase) {
 			if Mine(idx) {
+				if pre, err := json.Marshal(c); err == nil {
+					cw.Begin(idx, kind, pre)
+				}
 				coq, stats := runBrkCase(&c)
 				repl, _ := json.Marshal(c)
 				cw.Put(Case{Idx: idx, Kind: kind, Coq: coq, Repl: repl, Stats: stats})
